@@ -227,19 +227,20 @@ PROPS["C33"] = {
 }
 
 PROPS["C26"] = {
+    "standin": ["standin_vector_laws"],
     "verus": ["lsh"],
     "kani": ["vector_ops"],
     "level": "proof",
-    "level_text": "Probe-sequence clause: unbounded Verus proof on lsh_probes (sliced from /repo each run) — at most num_probes entries, first is the bucket, every entry is the bucket with a valid 0..3-bit flip below min(num_hyperplanes,62), strictly increasing in (flip count, positions), hence pairwise distinct and non-decreasing in flip count; Kani links flip count to the real hamming_distance for every bucket/positions and proves the hamming/abs laws over full domains. Float laws (manhattan, euclidean, cosine range) are Kani harnesses over every finite f32 at FIXED dimension 1–2: BOUNDED, not counted as proved. Not decided: quantize/dequantize error, cosine symmetry and self-distance, LSH bucket independence from the hyperplane cache under concurrency.",
+    "level_text": "Probe-sequence clause: unbounded Verus proof on lsh_probes (sliced from /repo each run) — at most num_probes entries, first is the bucket, every entry is the bucket with a valid 0..3-bit flip below min(num_hyperplanes,62), strictly increasing in (flip count, positions), hence pairwise distinct and non-decreasing in flip count; Kani links flip count to the real hamming_distance for every bucket/positions and proves the hamming/abs laws over full domains. Float laws (manhattan, euclidean, cosine range) are Kani harnesses over every finite f32 at FIXED dimension 1–2: BOUNDED, not counted as proved. Not decided: quantize/dequantize error, cosine symmetry and self-distance, LSH bucket independence from the hyperplane cache under concurrency. BOUNDED stand-in (not counted as proved): distance laws, cosine range and exact self-distance, symmetric int8 quantisation error on 480 pseudo-random vector pairs of dimension 0..33 incl. huge/tiny/zero elements; lsh_bucket unchanged across cache clear / eviction / resize (sequential).",
     "level_note": "trusted: Verus+Z3, Kani+CBMC incl. CBMC's float and sqrt models (float counterexamples are replayed on the real code before they count); lsh_probes' contract fixes the enumeration order inside a flip class (stronger than the property)",
     "technique": "Verus loop invariants with a ghost witness on a function extracted from /repo each run (erasure-checked); Kani harnesses injected into a scratch copy",
     "aux_failure": "violation",
     "functions_under_contract": ["src/vector_ops.rs: lsh_probes (Verus)", "src/vector_ops.rs: hamming_distance, abs_i64, abs_f64, manhattan_distance, euclidean_distance, euclidean_distance_squared, cosine_distance, cosine_distance_checked (Kani)"],
     "assumptions": [
         "float laws only at dimension 1–2 (every finite bit pattern); higher dimensions not explored",
-        "cosine_distance(a,a) == 0 and cosine symmetry: CBMC gives no result (30–40 min); on the real engine cosine(a,a) can be ~2.2e-16 at dimension >= 2 (rounding) — reported in DESIGN.md, not decided by a check",
-        "quantize_vector_* / dequantize error bound not decided (float division + round)",
-        "LSH bucket independence from the global RwLock LRU hyperplane cache under concurrent use: threads — not decided",
+        "cosine_distance(a,a) == 0 and cosine symmetry: CBMC gives no result (30–40 min) — covered only by the bounded stand-in (self-distance was ~2e-16 at dimension >= 2 before the repair)",
+        "quantize_vector_linear / minmax error bound not decided (no inverse with the same scale is exposed); symmetric quantisation only in the bounded stand-in",
+        "LSH bucket independence from the global RwLock LRU hyperplane cache under CONCURRENT use: threads — not decided (sequential clear/evict/resize only, bounded)",
         "lsh_probes: 1i64 << bit with bit < 62 (from num_hyperplanes.min(62)); the witness order is lexicographic in flipped positions",
     ],
     "trusted_base": ["verus 0.2026.09.13 + z3", "kani 0.68.0 + cbmc 6.11 (float/sqrt models)"],
